@@ -198,7 +198,7 @@ Lemma P_unsorted_outer_refuted :
     In x (passed (fst run)) /\ assoc x (vmap (fst run)) <> None /\
     snd (graph_clone fuel false false g h) = Raise RuntimeError.
 Proof.
-  exists wit_heap, 19, 3%nat, 38, 6. cbv zeta. fold wit_run.
+  exists wit_heap, 19, 3%nat, 38, 6. cbv zeta.
   split; [exact wit_closed|]. split; [reflexivity|]. split; [exact wit_result|].
   split; [exact wit_reach|]. split; [reflexivity|]. split; [exact wit_is_value|].
   split; [exact wit_owned|]. destruct wit_use_before_def as [K1 K2]. split; [exact K1|].
